@@ -147,6 +147,11 @@ theorem order_independent (dev : Dev) (o : MapOrd) (r : Bool) (fuel : Nat) (plan
         simp at hne
       rw [hs this]
 
+/-- an instance of the hypothesis: `[set $.asm [get $.src.a]]` never asks for an order -/
+example : (execute ⟨Dev.current, none⟩ true 5
+    (some (.call b!"set" [.path ⟨false, [.child b!"asm"]⟩, .call b!"get" [.path ⟨false, [.child b!"src", .child b!"a"]⟩]]))
+    (.mref 0) [Cell.map [(b!"src", .mref 1)], Cell.map [(b!"a", .int 1)]]).1 ≠ .enum := by decide
+
 /-- two orders, one run: under the hypothesis of `order_independent` any two orders agree -/
 theorem deterministic (dev : Dev) (o1 o2 : MapOrd) (r : Bool) (fuel : Nat) (plan : Option Arg) (root : Val) (h : Heap)
     (hne : (execute ⟨dev, none⟩ r fuel plan root h).1 ≠ .enum) :
@@ -350,7 +355,9 @@ theorem dif_ints (dev : Dev) (x : Int) (xs : List Int) (hx : inInt64 x) :
   simp only [List.map, Spec.arith, Val.isNum, if_true]
   rw [← wrap64_of_inInt64 hx, foldDif_ints dev xs x, wrap64_of_inInt64 hx]
 
-example : Spec.sum [.int 9223372036854775807, .int 1] = .ok (.int (-9223372036854775808)) := by decide
+example : inInt64 9223372036854775807 ∧
+    Spec.sum [.int 9223372036854775807, .int 1] = .ok (.int (-9223372036854775808)) := by
+  unfold inInt64 minInt64 maxInt64; decide
 
 /-- "each argument is less than any subsequent argument": for integers compared exactly (the documented
 comparison) the neighbour chain the code walks is true exactly when ALL pairs are in order -/
@@ -413,6 +420,26 @@ theorem each_key_spec (ev : Arg → Val → M Val) (at_ : Val) (a0 k : Arg) (f :
     (h0 : ev a0 at_ h = (.ok (.aref a), h)) (hk : ev k at_ h = (.ok (.str key), h)) :
     fnEach ev at_ [a0, .call f fargs, k] h = Spec.each (fun at' => ev (.call f fargs) at') key a h :=
   fnEach_key_spec ev at_ a0 k f fargs a key h h0 hk
+
+/-- instances of the hypotheses of `cond_spec` and `each_spec`: the plan
+`[each $.src.l [set @.asm [cond [[lt 1 @.src] big] [true small]]]]` on `{src: {l: [1 5]}}` — every `cond`
+argument is a two-element list, the array argument evaluates without effect — gives `[small big]` -/
+example :
+    let condArgs : List Arg := [
+      .raw (.aref 2) [.call b!"lt" [.lit (.int 1), .path ⟨true, [.child b!"src"]⟩], .lit (.str b!"big")],
+      .raw (.aref 3) [.lit (.bool true), .lit (.str b!"small")]]
+    let body : Arg := .call b!"set" [.path ⟨true, [.child b!"asm"]⟩, .call b!"cond" condArgs]
+    let h : Heap := [Cell.map [(b!"src", .mref 1)], Cell.map [(b!"l", .aref 4)], Cell.arr [], Cell.arr [],
+                     Cell.arr [.int 1, .int 5]]
+    (∀ a ∈ condArgs, ∀ r, a ≠ .lit (.aref r)) ∧
+    eval envCur (.mref 0) 5 (.path ⟨false, [.child b!"src", .child b!"l"]⟩) (.mref 0) h = (.ok (.aref 4), h) ∧
+    (match fnEach (eval envCur (.mref 0) 5) (.mref 0) [.path ⟨false, [.child b!"src", .child b!"l"]⟩, body] h with
+     | (.ok (.aref c), h') => h'.arrAt c
+     | _ => []) = [.str b!"small", .str b!"big"] := by
+  refine ⟨?_, by decide, by decide⟩
+  intro a ha r
+  simp at ha
+  rcases ha with ha | ha <;> subst ha <;> simp
 
 /-! ## 5. frame -/
 
